@@ -143,6 +143,8 @@ def record_shard(binpath, driver, seed, tier, shard, nshards, outfile, timeout, 
                     status[k] = int(v)
         if rc != 0:
             status["out_tail"] = out[-2000:]
+            if "HARNESS PANIC" in out:
+                raise ToolError("the harness itself panicked (driver bug, not a verdict):\n" + out[-1500:])
     except subprocess.TimeoutExpired:
         status["timeout"] = True
     if status["rc"] != 0 or status["timeout"]:
